@@ -563,43 +563,45 @@ theorem mwithdraw_step {s s' : State} {marker admin to : Addr} {ids : List Scope
           · simp at h
           · split at h
             · simp at h
-            · rename_i hf
-              simp at h; subst h
-              have hf' : hasFunds s.ledger marker ids = true := by simpa using hf
-              have hw' : m.has admin .withdraw = true := by simpa using hw
-              have hdp' : depositOk s [admin] marker to = true := by simpa using hdp
-              refine ⟨?_, ?_, ?_⟩
-              · intro d
-                obtain ⟨o, ho, hne, hsc⟩ := hinv d
-                obtain ⟨hsrc, hfin⟩ := holderIs_move (b := to) hnd' hf' ho
-                by_cases hd : d ∈ ids
-                · simp only [hd, if_true] at hfin
-                  refine ⟨some to, hfin, fun e => hto (by injection e), fun _ => ?_⟩
-                  exact hsc (by rw [hsrc hd]; rfl)
-                · simp only [hd, if_false] at hfin
-                  exact ⟨o, hfin, hne, hsc⟩
-              · intro d o o' ho ho' hne
-                obtain ⟨hsrc, hfin⟩ := holderIs_move (b := to) hnd' hf' ho
-                by_cases hd : d ∈ ids
-                · simp only [hd, if_true] at hfin
-                  have : o' = some to := holderIs_unique ho' hfin
-                  subst this
-                  have := hsrc hd; subst this
-                  refine ⟨fun x hx => ?_, fun x hx => ?_⟩
-                  · injection hx with hx; subst hx
-                    exact ⟨m, hm, admin, by simp, hw'⟩
-                  · injection hx with hx; subst hx
-                    exact depositP_of_agents hdp' (by simp)
-                · simp only [hd, if_false] at hfin
-                  exact absurd (holderIs_unique hfin ho') hne
-              · intro d
-                obtain ⟨o, ho, _, _⟩ := hinv d
-                obtain ⟨hsrc, hfin⟩ := holderIs_move (b := to) hnd' hf' ho
-                by_cases hd : d ∈ ids
-                · simp only [hd, if_true] at hfin
-                  rw [hfin.1, ho.1, hsrc hd]; rfl
-                · simp only [hd, if_false] at hfin
-                  rw [hfin.1, ho.1]
+            · split at h
+              · simp at h
+              · rename_i hf
+                simp at h; subst h
+                have hf' : hasFunds s.ledger marker ids = true := by simpa using hf
+                have hw' : m.has admin .withdraw = true := by simpa using hw
+                have hdp' : depositOk s [admin] marker to = true := by simpa using hdp
+                refine ⟨?_, ?_, ?_⟩
+                · intro d
+                  obtain ⟨o, ho, hne, hsc⟩ := hinv d
+                  obtain ⟨hsrc, hfin⟩ := holderIs_move (b := to) hnd' hf' ho
+                  by_cases hd : d ∈ ids
+                  · simp only [hd, if_true] at hfin
+                    refine ⟨some to, hfin, fun e => hto (by injection e), fun _ => ?_⟩
+                    exact hsc (by rw [hsrc hd]; rfl)
+                  · simp only [hd, if_false] at hfin
+                    exact ⟨o, hfin, hne, hsc⟩
+                · intro d o o' ho ho' hne
+                  obtain ⟨hsrc, hfin⟩ := holderIs_move (b := to) hnd' hf' ho
+                  by_cases hd : d ∈ ids
+                  · simp only [hd, if_true] at hfin
+                    have : o' = some to := holderIs_unique ho' hfin
+                    subst this
+                    have := hsrc hd; subst this
+                    refine ⟨fun x hx => ?_, fun x hx => ?_⟩
+                    · injection hx with hx; subst hx
+                      exact ⟨m, hm, admin, by simp, hw'⟩
+                    · injection hx with hx; subst hx
+                      exact depositP_of_agents hdp' (by simp)
+                  · simp only [hd, if_false] at hfin
+                    exact absurd (holderIs_unique hfin ho') hne
+                · intro d
+                  obtain ⟨o, ho, _, _⟩ := hinv d
+                  obtain ⟨hsrc, hfin⟩ := holderIs_move (b := to) hnd' hf' ho
+                  by_cases hd : d ∈ ids
+                  · simp only [hd, if_true] at hfin
+                    rw [hfin.1, ho.1, hsrc hd]; rfl
+                  · simp only [hd, if_false] at hfin
+                    rw [hfin.1, ho.1]
 
 /-! ### environment operations -/
 
@@ -622,5 +624,19 @@ theorem setAccess_eq {s s' : State} {m a : Addr} {ps : List Access} (h : setAcce
   split at h
   · simp at h
   · simp at h; subst h; exact ⟨rfl, rfl⟩
+
+theorem setStatus_eq {s s' : State} {m : Addr} {st : MStatus} (h : setStatus s m st = .ok s') :
+    s'.ledger = s.ledger ∧ s'.scopes = s.scopes := by
+  unfold setStatus at h
+  split at h
+  · simp at h
+  · simp at h; subst h; exact ⟨rfl, rfl⟩
+
+theorem setStatus_grants {s s' : State} {m : Addr} {st : MStatus} (h : setStatus s m st = .ok s') :
+    s'.grants = s.grants := by
+  unfold setStatus at h
+  split at h
+  · simp at h
+  · simp at h; subst h; rfl
 
 end PvProofs.VownerL
